@@ -128,17 +128,17 @@ class _Extract:
                 kw, ob = lp[k]
                 cb = match_brace(item.src.masked, ob)
                 head = item.src.masked[kw:ob]
-                mh = re.match(r'for\s+([A-Za-z_][A-Za-z0-9_]*)\s+in\s+&mut\s+([A-Za-z_][A-Za-z0-9_.]*)\s*$', head)
+                mh = re.match(r'for\s+([A-Za-z_][A-Za-z0-9_]*)\s+in\s+&(mut\s+)?([A-Za-z_][A-Za-z0-9_.]*)\s*$', head)
                 if not mh:
-                    raise LostAnchor('%s: loop #%d is not of the form `for X in &mut V`: `%s`' % (item.name, k, head.strip()))
+                    raise LostAnchor('%s: loop #%d is not of the form `for X in &[mut] V`: `%s`' % (item.name, k, head.strip()))
                 if re.search(r'\bcontinue\b', item.src.masked[ob:cb]):
                     raise LostAnchor('%s: loop #%d contains `continue`; R8 desugaring refused' % (item.name, k))
-                x, v = mh.group(1), mh.group(2)
+                x, mut, v = mh.group(1), ('mut ' if mh.group(2) else ''), mh.group(3)
                 cuts.append((kw - item.start, ob + 1 - item.start,
-                             'let mut %s: usize = 0;\n        while %s < %s.len()\n%s\n        {\n            let %s = &mut %s[%s];'
-                             % (iname, iname, v, clauses.strip('\n'), x, v, iname)))
+                             'let mut %s: usize = 0;\n        while %s < %s.len()\n%s\n        {\n            let %s = &%s%s[%s];'
+                             % (iname, iname, v, clauses.strip('\n'), x, mut, v, iname)))
                 cuts.append((cb - item.start, cb - item.start, '%s    %s += 1;\n        ' % (tail_hint, iname)))
-                self.applied.append(('R8-desugar `for %s in &mut %s` into an index loop over %s' % (x, v, iname), 1))
+                self.applied.append(('R8-desugar `for %s in &%s%s` into an index loop over %s' % (x, mut, v, iname), 1))
         edits = [(off, off, mk) for off, mk in inserts] + cuts
         for a, b, mk in sorted(edits, key=lambda e: e[0], reverse=True):
             # inserts that fall inside a replaced loop are dropped with the loop
@@ -260,6 +260,28 @@ class Block(_Extract):
         if item is None:
             return text, item
         return self.header.rstrip() + '\n{\n' + text + self.tail + '\n}\n', item
+
+
+class Derived:
+    """Text derived mechanically from a statement of a function: `regex` must match exactly once in the
+    function's (comment-masked) text; `template.format(*groups)` is emitted.  R27."""
+
+    def __init__(self, file, fn, impl, regex, template, rule):
+        self.file, self.fn, self.impl, self.regex, self.template, self.rule = file, fn, impl, regex, template, rule
+        self.applied = []
+        self.item = None
+        self.subs = []
+
+    def render(self, root):
+        src = source(root, self.file)
+        fn = src.extract_fn(self.fn, self.impl)
+        body = src.masked[fn.start:fn.end]
+        ms = list(re.finditer(self.regex, body))
+        if len(ms) != 1:
+            raise LostAnchor('%s: derived text: `%s` matches %d times' % (fn.name, self.regex, len(ms)))
+        self.item = fn
+        self.applied = [('%s: `%s` -> `%s`' % (self.rule, ms[0].group(0), self.template.format(*ms[0].groups()).strip()), 1)]
+        return self.template.format(*ms[0].groups()), fn
 
 
 class Decl(_Extract):
